@@ -5,7 +5,37 @@ from pathlib import Path
 VERIF = Path(__file__).resolve().parent.parent
 ALL = [f"C{i:02d}" for i in range(1, 19)]
 
+NOTE_STD = ("Trusted: Lean kernel, axioms propext/Classical.choice/Quot.sound as reported by #print axioms, harness/translate.py, "
+            "the correspondence harness (sampled tie between model and code). ")
+
 CHECKS = {
+    "C14": dict(
+        text="Lean theorem: Python's two str.replace passes ('[[A]'->'[[B]', then '[[A#'->'[[B#') equal the one-pass specification "
+        "(every link to A retargeted, every other character copied) for every text and all link-safe names, plus near-miss and "
+        "no-link corollaries. The replace model is tied to run_file_rename by running the CLI on generated directories "
+        "(.zo/.zot/.zoq, sub-directories, regex-metacharacter names, 11 near-miss link targets) and diffing all file bytes.",
+        note=NOTE_STD + "File system atomic; names without [ ] # for the spec theorem.",
+        technique="Lean 4 proof (two-pass replace = one-pass spec, induction on the text) + CLI correspondence",
+        design="§4 C14",
+    ),
+    "C16": dict(
+        text="Lean theorems about the decision logic of init_from_template (no clobber without overwrite, first matching pattern wins over "
+        "later ones and over an explicit template, no match => nothing written, idempotence) for every pattern-match outcome, with "
+        "re.match and jinja2 as parameters; _build_template_in_dir is modelled executably. Tied to the code by multi-step init "
+        "sequences in one process (equal template basenames, sub-directories, -f, CLI and API) compared with the model and an independent reading.",
+        note=NOTE_STD + "re.match / jinja2 / strptime are parameters computed by Python on both sides.",
+        technique="Lean 4 proof (decision logic, all pattern outcomes) + multi-step correspondence",
+        design="§4 C16",
+    ),
+    "C18": dict(
+        text="Lean theorems about a model of file_groups.py: expansion of a concatenation = concatenation of expansions, plain paths untouched, "
+        "group = in-order expansion of members, fuel (recursion depth) irrelevant for acyclic maps (depth-function argument, any nesting), "
+        "date fields = today minus i days. Tied to the code by random acyclic maps x argument lists x frozen boundary days, compared with "
+        "the model and an independent flatten.",
+        note=NOTE_STD + "str.format/strftime modelled for the fragment listed in the evidence; pathlib normalisation applied to both sides.",
+        technique="Lean 4 proof (structural induction, acyclicity by depth function) + correspondence",
+        design="§4 C18",
+    ),
     "C07": dict(
         text="Lean theorems about a model of _zid_manager.py transcribed character by character (odometer rank induction: "
         "uniqueness for every allocation sequence and restart pattern, shape, exhaustion point; the generated exclusion list "
